@@ -288,6 +288,37 @@ pub fn run(seed: u64, n: usize, out: &str) {
         cyl_case(&mut sink, &mut r, 0.5, -1.0, 2.0, 360.0, Some(chain_tr(&[Elem::Rx(90.0), Elem::Tr(0., 0., 5.)])));
         tri_case(&mut sink, &mut r, &[0., 0., 0., 6., 0., 0., 0., 8., 0.]);
     }
+    // overlap of boxes that exactly TOUCH at non-dyadic coordinates (cells of a 0.1 grid share a face, an edge or a corner), that miss
+    // each other by one ulp, or whose magnitudes differ by 1e16: any reformulation of `overlaps` that is only equivalent in exact
+    // arithmetic (centre / half-size form: seeded change C15-m5) decides these differently.  Fixed list + a few grid cells from an
+    // own generator state; the random sequence below is unchanged, only cut at n
+    {
+        let up = |x: Float| Float::from_bits(x.to_bits() + 1);
+        let mut pairs: Vec<[Float; 12]> = vec![
+            [0.0, 0.0, 0.0, 0.1, 0.1, 0.1, 0.1, 0.0, 0.0, 0.2, 0.1, 0.1],
+            [0.1, 0.2, 0.3, 0.3, 0.5, 0.7, 0.3, 0.5, 0.7, 0.9, 1.1, 1.3],
+            [-0.7, -0.7, -0.7, -0.1, -0.1, -0.1, -0.1, -0.7, -0.7, 0.2, -0.1, -0.1],
+            [0.0, 0.0, 0.0, 0.1, 1.0, 1.0, up(0.1), 0.0, 0.0, 0.2, 1.0, 1.0],
+            [0.0, 0.0, 0.0, 1.0, 0.7, 1.0, 0.0, up(0.7), 0.0, 1.0, 0.9, 1.0],
+            [-1e16, 0.0, 0.0, 3.0, 1.0, 1.0, 5.0, 0.0, 0.0, 8.0, 1.0, 1.0],
+            [0.0, -1e16, 0.0, 1.0, 3.0, 1.0, 0.0, 5.0, 0.0, 1.0, 8.0, 1.0],
+            [-1e16, 0.0, 0.0, 3.0, 1.0, 1.0, 3.0, 0.0, 0.0, 8.0, 1.0, 1.0],
+            [0.0, 0.0, -3.0, 1.0, 1.0, 1e15, 0.0, 0.0, -8.0, 1.0, 1.0, -5.0],
+        ];
+        let mut y = Rng::new(seed ^ 0xC15_7007);
+        for _ in 0..(n / 200).max(3) {
+            let g = |y: &mut Rng| -> (Float, Float, Float, Float) {
+                let i = y.below(40) as i64 - 20; let w = 1 + y.below(3) as i64;
+                // the neighbour starts exactly where this cell ends (share), one ulp later (miss) or overlaps
+                let a0 = (i as Float) * 0.1; let a1 = ((i + w) as Float) * 0.1;
+                let b0 = match y.below(4) { 0 | 1 => a1, 2 => up(a1), _ => ((i + w - 1) as Float) * 0.1 };
+                (a0, a1, b0, b0 + 0.1 * (1 + y.below(3)) as Float)
+            };
+            let (x0, x1, u0, u1) = g(&mut y); let (y0, y1, v0, v1) = g(&mut y); let (z0, z1, w0, w1) = g(&mut y);
+            pairs.push([x0, y0, z0, x1, y1, z1, u0, v0, w0, u1, v1, w1]);
+        }
+        for q in pairs.iter() { if sink.len() < n { let i: Vec<Float> = q.to_vec(); push(&mut sink, 0, 5, &i, &box_apply(5, &i), ""); } }
+    }
     while sink.len() < n {
         match r.below(10) {
             0 | 1 | 2 | 3 => {
